@@ -173,6 +173,43 @@ def b_align(ctx):
                     return None
             if not bad and okeys and not all(any(okey_of(rk) == k for rk in ro.index) for k in okeys):
                 ctx.fail('C13:row-lost', f'an object row is missing in the result for {label}, keys {ok} / {pk}', {'obj_names': on, 'obj_keys': ok, 'prm_names': pn, 'prm_keys': pk, 'reps': [orep, prep]})
+            # optional argument droplevel: the object's own levels listed there are dropped from the PARAMETER result (one row per remaining key, the parameter's value
+            # for that key); the object result is as without droplevel.  Parameter values that repeat under different keys (added after seed C13-d replaced the
+            # group-by-key by drop_duplicates on the values)
+            own = [n_ for n_ in on if n_ not in pn and n_ is not None]
+            if own and not bad and okind == 'series' and list(on) != [None] and ro.index.equals(rp.index):
+                D = [own[-1]]
+                pv2 = [7.0 + (i % 2) for i in range(len(pk))]
+                prm2 = pd.Series(pv2, index=_mk_index(pn, pk, prep), name='prm') if pkind == 'series' else pd.DataFrame({'p': pv2, 'q': [v + 0.25 for v in pv2]}, index=_mk_index(pn, pk, prep))
+                obj2 = pd.Series(ov, index=_mk_index(on, ok, orep), name='obj')
+                ctx.case(True, key=(okind, pkind, on, tuple(ok), pn, tuple(pk), orep, prep, 'droplevel'))
+                try:
+                    rp2, ro2 = Broadcaster(obj2).broadcast(prm2, droplevel=D)
+                except Exception as e:   # noqa
+                    ctx.fail(f'C13:droplevel:raises:{type(e).__name__}', f'broadcast(droplevel={D}) raises {type(e).__name__}: {e} for {label}, keys {ok} / {pk}', {'obj_names': on, 'obj_keys': ok, 'prm_names': pn, 'prm_keys': pk})
+                    continue
+                keep = [n_ for n_ in ro.index.names if n_ not in D]
+                rn2 = list(rp2.index.names)
+                if sorted(map(str, rn2)) != sorted(map(str, keep)):
+                    ctx.fail('C13:droplevel:levels', f'parameter result of broadcast(droplevel={D}) has levels {rn2}, expected {keep} for {label}', {'obj_names': on, 'prm_names': pn})
+                    continue
+                want_keys = {tuple(rk[list(ro.index.names).index(n_)] for n_ in rn2) for rk in (k_ if isinstance(k_, tuple) else (k_,) for k_ in ro.index)}
+                got_keys = {k_ if isinstance(k_, tuple) else (k_,) for k_ in rp2.index}
+                pkeys2 = {project(k, list(pn), list(pn)): i for i, k in enumerate(pk)}
+                bad2 = None
+                if got_keys != want_keys or len(rp2) != len(got_keys):
+                    bad2 = f'keys {sorted(got_keys, key=str)} (rows: {len(rp2)}), expected one row for each of {sorted(want_keys, key=str)}'
+                else:
+                    for pos, rk in enumerate(rp2.index):
+                        rk = rk if isinstance(rk, tuple) else (rk,)
+                        kp = tuple(rk[rn2.index(n_)] for n_ in pn)
+                        wp = pv2[pkeys2[kp]] if kp in pkeys2 else np.nan
+                        gp = rp2.iloc[pos] if pkind == 'series' else rp2['p'].iloc[pos]
+                        if not ((gp == wp) or (np.isnan(gp) and np.isnan(wp))):
+                            bad2 = f'row {rk}: parameter value {gp}, expected {wp}'
+                            break
+                if bad2:
+                    ctx.fail('C13:droplevel:rows', f'broadcast(droplevel={D}) for {label}, keys {ok} / {pk}: {bad2}', {'obj_names': on, 'obj_keys': ok, 'prm_names': pn, 'prm_keys': pk, 'droplevel': D})
     # scalar / array parameters
     if ctx.shard == 0:
         import pandas as pd
